@@ -5,14 +5,26 @@ From LibcoapV Require Import Base.Tactics Base.Bytes Base.BytesProofs Block.Bloc
 Local Open Scope Z_scope.
 
 (* ------------------------------------------------------------------ (A) the lg_srcv table *)
-Lemma blk_rtag_match_refl a : blk_rtag_match a a = true.
+Lemma blk_rtag_match_refl0 a : blk_rtag_match a a = true.
 Proof. destruct a; cbn; [apply Z.eqb_refl|reflexivity]. Qed.
 
-Lemma blk_rtag_match_sym a b : blk_rtag_match a b = blk_rtag_match b a.
+Lemma blk_rtag_match_sym0 a b : blk_rtag_match a b = blk_rtag_match b a.
 Proof. destruct a, b; cbn; try reflexivity. apply Z.eqb_sym. Qed.
 
-Lemma blk_rtag_match_eq a b : blk_rtag_match a b = true -> a = b.
+Lemma blk_rtag_match_eq0 a b : blk_rtag_match a b = true -> a = b.
 Proof. destruct a, b; cbn; try discriminate; [|reflexivity]. intros H. f_equal. lia. Qed.
+
+Lemma blk_key_match_refl a : blk_key_match a a = true.
+Proof. unfold blk_key_match. rewrite blk_rtag_match_refl0, Z.eqb_refl. reflexivity. Qed.
+
+Lemma blk_key_match_sym a b : blk_key_match a b = blk_key_match b a.
+Proof. unfold blk_key_match. rewrite blk_rtag_match_sym0, Z.eqb_sym. reflexivity. Qed.
+
+Lemma blk_key_match_eq a b : blk_key_match a b = true -> a = b.
+Proof.
+  unfold blk_key_match. intros H. apply andb_true_iff in H. destruct H as (H1 & H2).
+  apply blk_rtag_match_eq0 in H1. destruct a, b; cbn [fst snd] in *. f_equal; [lia|exact H1].
+Qed.
 
 Fixpoint blk_tab_uniq (t : blk_srv_tab) : Prop :=
   match t with
@@ -20,29 +32,29 @@ Fixpoint blk_tab_uniq (t : blk_srv_tab) : Prop :=
   | (k, _) :: t' => blk_tab_find t' k = None /\ blk_tab_uniq t'
   end.
 
-Lemma blk_find_remove_other t rt rt' : blk_rtag_match rt rt' = false ->
+Lemma blk_find_remove_other t rt rt' : blk_key_match rt rt' = false ->
   blk_tab_find (blk_tab_remove t rt') rt = blk_tab_find t rt.
 Proof.
   intros H. induction t as [|[k s] t IH]; cbn [blk_tab_remove blk_tab_find]; [reflexivity|].
-  destruct (blk_rtag_match rt' k) eqn:E1.
-  - apply blk_rtag_match_eq in E1. subst k. rewrite H. reflexivity.
+  destruct (blk_key_match rt' k) eqn:E1.
+  - apply blk_key_match_eq in E1. subst k. rewrite H. reflexivity.
   - cbn [blk_tab_find]. rewrite IH. reflexivity.
 Qed.
 
-Lemma blk_find_replace_other t rt rt' s' : blk_rtag_match rt rt' = false ->
+Lemma blk_find_replace_other t rt rt' s' : blk_key_match rt rt' = false ->
   blk_tab_find (blk_tab_replace t rt' s') rt = blk_tab_find t rt.
 Proof.
   intros H. induction t as [|[k s] t IH]; cbn [blk_tab_replace blk_tab_find]; [reflexivity|].
-  destruct (blk_rtag_match rt' k) eqn:E1; cbn [blk_tab_find].
-  - apply blk_rtag_match_eq in E1. subst k. rewrite H. reflexivity.
+  destruct (blk_key_match rt' k) eqn:E1; cbn [blk_tab_find].
+  - apply blk_key_match_eq in E1. subst k. rewrite H. reflexivity.
   - rewrite IH. reflexivity.
 Qed.
 
 Lemma blk_find_remove_same t rt : blk_tab_uniq t -> blk_tab_find (blk_tab_remove t rt) rt = None.
 Proof.
   induction t as [|[k s] t IH]; cbn [blk_tab_remove blk_tab_find blk_tab_uniq]; [reflexivity|].
-  intros (U1 & U2). destruct (blk_rtag_match rt k) eqn:E1.
-  - apply blk_rtag_match_eq in E1. subst k. exact U1.
+  intros (U1 & U2). destruct (blk_key_match rt k) eqn:E1.
+  - apply blk_key_match_eq in E1. subst k. exact U1.
   - cbn [blk_tab_find]. rewrite E1. apply IH, U2.
 Qed.
 
@@ -50,25 +62,25 @@ Lemma blk_find_replace_same t rt s' : blk_tab_find t rt <> None ->
   blk_tab_find (blk_tab_replace t rt s') rt = Some s'.
 Proof.
   induction t as [|[k s] t IH]; cbn [blk_tab_replace blk_tab_find]; [congruence|].
-  intros H. destruct (blk_rtag_match rt k) eqn:E1; cbn [blk_tab_find]; rewrite E1; [reflexivity|].
+  intros H. destruct (blk_key_match rt k) eqn:E1; cbn [blk_tab_find]; rewrite E1; [reflexivity|].
   apply IH, H.
 Qed.
 
 Lemma blk_uniq_remove t rt : blk_tab_uniq t -> blk_tab_uniq (blk_tab_remove t rt).
 Proof.
   induction t as [|[k s] t IH]; cbn [blk_tab_remove blk_tab_uniq]; [tauto|].
-  intros (U1 & U2). destruct (blk_rtag_match rt k) eqn:E1; [exact U2|].
+  intros (U1 & U2). destruct (blk_key_match rt k) eqn:E1; [exact U2|].
   cbn [blk_tab_uniq]. split; [|apply IH, U2].
-  rewrite blk_find_remove_other; [exact U1|]. rewrite blk_rtag_match_sym. exact E1.
+  rewrite blk_find_remove_other; [exact U1|]. rewrite blk_key_match_sym. exact E1.
 Qed.
 
 Lemma blk_uniq_replace t rt s' : blk_tab_uniq t -> blk_tab_uniq (blk_tab_replace t rt s').
 Proof.
   induction t as [|[k s] t IH]; cbn [blk_tab_replace blk_tab_uniq]; [tauto|].
-  intros (U1 & U2). destruct (blk_rtag_match rt k) eqn:E1; cbn [blk_tab_uniq].
+  intros (U1 & U2). destruct (blk_key_match rt k) eqn:E1; cbn [blk_tab_uniq].
   - split; assumption.
   - split; [|apply IH, U2].
-    rewrite blk_find_replace_other; [exact U1|]. rewrite blk_rtag_match_sym. exact E1.
+    rewrite blk_find_replace_other; [exact U1|]. rewrite blk_key_match_sym. exact E1.
 Qed.
 
 (* Pass and Reject are decided before the lg_srcv is looked up: the state is not touched *)
@@ -89,61 +101,61 @@ Qed.
 (* what one request does to the table entry of its own Request-Tag, and to the others *)
 Lemma blk_srv_recv_entry junk maxszx tab r : blk_tab_uniq tab ->
   snd (blk_srv_recv junk maxszx tab r) =
-    snd (blk_srv_step junk maxszx (blk_tab_find tab (rq_rtag r)) (rq_arr r)) /\
-  blk_tab_find (fst (blk_srv_recv junk maxszx tab r)) (rq_rtag r) =
-    fst (blk_srv_step junk maxszx (blk_tab_find tab (rq_rtag r)) (rq_arr r)) /\
-  (forall rt, blk_rtag_match rt (rq_rtag r) = false ->
+    snd (blk_srv_step junk maxszx (blk_tab_find tab (rq_key r)) (rq_arr r)) /\
+  blk_tab_find (fst (blk_srv_recv junk maxszx tab r)) (rq_key r) =
+    fst (blk_srv_step junk maxszx (blk_tab_find tab (rq_key r)) (rq_arr r)) /\
+  (forall rt, blk_key_match rt (rq_key r) = false ->
      blk_tab_find (fst (blk_srv_recv junk maxszx tab r)) rt = blk_tab_find tab rt) /\
   blk_tab_uniq (fst (blk_srv_recv junk maxszx tab r)).
 Proof.
   intros U. unfold blk_srv_recv.
-  pose proof (blk_srv_step_pass_reject junk maxszx (blk_tab_find tab (rq_rtag r)) (rq_arr r)) as PR.
-  destruct (blk_srv_step junk maxszx (blk_tab_find tab (rq_rtag r)) (rq_arr r)) as [st' o] eqn:E.
+  pose proof (blk_srv_step_pass_reject junk maxszx (blk_tab_find tab (rq_key r)) (rq_arr r)) as PR.
+  destruct (blk_srv_step junk maxszx (blk_tab_find tab (rq_key r)) (rq_arr r)) as [st' o] eqn:E.
   cbn [fst snd] in *.
   assert (Gen : forall tab', (tab' =
-            match blk_tab_find tab (rq_rtag r), st' with
+            match blk_tab_find tab (rq_key r), st' with
             | None, None => tab
-            | None, Some s => (rq_rtag r, s) :: tab
-            | Some _, None => blk_tab_remove tab (rq_rtag r)
-            | Some _, Some s => blk_tab_replace tab (rq_rtag r) s
+            | None, Some s => (rq_key r, s) :: tab
+            | Some _, None => blk_tab_remove tab (rq_key r)
+            | Some _, Some s => blk_tab_replace tab (rq_key r) s
             end) ->
-          blk_tab_find tab' (rq_rtag r) = st' /\
-          (forall rt, blk_rtag_match rt (rq_rtag r) = false -> blk_tab_find tab' rt = blk_tab_find tab rt) /\
+          blk_tab_find tab' (rq_key r) = st' /\
+          (forall rt, blk_key_match rt (rq_key r) = false -> blk_tab_find tab' rt = blk_tab_find tab rt) /\
           blk_tab_uniq tab').
-  { intros tab' ->. destruct (blk_tab_find tab (rq_rtag r)) as [s0|] eqn:F; destruct st' as [s1|].
+  { intros tab' ->. destruct (blk_tab_find tab (rq_key r)) as [s0|] eqn:F; destruct st' as [s1|].
     - split; [apply blk_find_replace_same; congruence|]. split; [|apply blk_uniq_replace, U].
       intros rt H. apply blk_find_replace_other, H.
     - split; [apply blk_find_remove_same, U|]. split; [|apply blk_uniq_remove, U].
       intros rt H. apply blk_find_remove_other, H.
-    - split; [cbn [blk_tab_find]; rewrite blk_rtag_match_refl; reflexivity|]. split.
+    - split; [cbn [blk_tab_find]; rewrite blk_key_match_refl; reflexivity|]. split.
       + intros rt H. cbn [blk_tab_find]. rewrite H. reflexivity.
       + cbn [blk_tab_uniq]. split; assumption.
     - split; [exact F|]. split; [intros; reflexivity|exact U]. }
   assert (Same : (o = BoPass \/ o = BoReject) ->
-            blk_tab_find tab (rq_rtag r) = st' /\
-            (forall rt, blk_rtag_match rt (rq_rtag r) = false -> blk_tab_find tab rt = blk_tab_find tab rt) /\
+            blk_tab_find tab (rq_key r) = st' /\
+            (forall rt, blk_key_match rt (rq_key r) = false -> blk_tab_find tab rt = blk_tab_find tab rt) /\
             blk_tab_uniq tab).
   { intros H. rewrite (PR H). split; [reflexivity|]. split; [intros; reflexivity|exact U]. }
   destruct o.
-  - destruct (blk_tab_find tab (rq_rtag r)) as [s0|] eqn:F; destruct st' as [s1|]; cbn [fst snd];
+  - destruct (blk_tab_find tab (rq_key r)) as [s0|] eqn:F; destruct st' as [s1|]; cbn [fst snd];
       (split; [reflexivity|]); apply Gen; rewrite ?F; reflexivity.
   - cbn [fst snd]. split; [reflexivity|]. apply Same. right. reflexivity.
-  - destruct (blk_tab_find tab (rq_rtag r)) as [s0|] eqn:F; destruct st' as [s1|]; cbn [fst snd];
+  - destruct (blk_tab_find tab (rq_key r)) as [s0|] eqn:F; destruct st' as [s1|]; cbn [fst snd];
       (split; [reflexivity|]); apply Gen; rewrite ?F; reflexivity.
-  - destruct (blk_tab_find tab (rq_rtag r)) as [s0|] eqn:F; destruct st' as [s1|]; cbn [fst snd];
+  - destruct (blk_tab_find tab (rq_key r)) as [s0|] eqn:F; destruct st' as [s1|]; cbn [fst snd];
       (split; [reflexivity|]); apply Gen; rewrite ?F; reflexivity.
   - cbn [fst snd]. split; [reflexivity|]. apply Same. left. reflexivity.
 Qed.
 
-Lemma blk_find_match tab a b : blk_rtag_match a b = true -> blk_tab_find tab a = blk_tab_find tab b.
-Proof. intros H. apply blk_rtag_match_eq in H. subst. reflexivity. Qed.
+Lemma blk_find_match tab a b : blk_key_match a b = true -> blk_tab_find tab a = blk_tab_find tab b.
+Proof. intros H. apply blk_key_match_eq in H. subst. reflexivity. Qed.
 
 (* the requests of one transfer see exactly what they would see if they were alone: the
    outcomes for Request-Tag t are the run of the reassembly core over t's requests only *)
 Theorem blk_srv_recv_projection junk maxszx : forall l tab t, blk_tab_uniq tab ->
-  map snd (filter (fun p => blk_rtag_match t (fst p)) (blk_srv_recv_run junk maxszx tab l)) =
+  map snd (filter (fun p => blk_key_match t (fst p)) (blk_srv_recv_run junk maxszx tab l)) =
   blk_run (blk_srv_step junk maxszx) (blk_tab_find tab t)
-          (map rq_arr (filter (fun r => blk_rtag_match t (rq_rtag r)) l)).
+          (map rq_arr (filter (fun r => blk_key_match t (rq_key r)) l)).
 Proof.
   induction l as [|r l IH]; intros tab t U; [reflexivity|].
   cbn [blk_srv_recv_run filter].
@@ -151,11 +163,11 @@ Proof.
   destruct (blk_srv_recv junk maxszx tab r) as [tab' o].
   cbn [fst snd] in S. destruct S as (Eo & S2 & S3 & S4).
   cbn [filter fst].
-  destruct (blk_rtag_match t (rq_rtag r)) eqn:M.
-  - cbn [map snd blk_run]. rewrite (blk_find_match tab t (rq_rtag r) M).
-    destruct (blk_srv_step junk maxszx (blk_tab_find tab (rq_rtag r)) (rq_arr r)) as [st' o'] eqn:E.
+  destruct (blk_key_match t (rq_key r)) eqn:M.
+  - cbn [map snd blk_run]. rewrite (blk_find_match tab t (rq_key r) M).
+    destruct (blk_srv_step junk maxszx (blk_tab_find tab (rq_key r)) (rq_arr r)) as [st' o'] eqn:E.
     cbn [fst snd] in *. f_equal; [exact Eo|].
-    rewrite (IH tab' t S4). rewrite (blk_find_match tab' t (rq_rtag r) M), S2. reflexivity.
+    rewrite (IH tab' t S4). rewrite (blk_find_match tab' t (rq_key r) M), S2. reflexivity.
   - rewrite (IH tab' t S4). rewrite (S3 t M). reflexivity.
 Qed.
 
@@ -163,27 +175,28 @@ Qed.
    not mix: whatever the interleaving, loss and duplication, every body delivered for
    Request-Tag t is the body of transfer t, and is delivered no more often than any of its
    blocks arrived. *)
-Theorem blk_srv_no_mix (bodies : Z -> bytes) (sizes : Z -> option Z) u junk maxszx l :
+Theorem blk_srv_no_mix (bodies : Z -> bytes) (sizes : Z -> option Z) u junk maxszx res l :
   0 <= u ->
-  Forall (fun r => exists t s k, rq_rtag r = Some t /\
+  Forall (fun r => exists t s k, rq_rtag r = Some t /\ rq_res r = res /\
                     u <= s /\ 0 <= k < blk_nblocks (bodies t) s /\
                     rq_arr r = blk_arr_of (bodies t) s (sizes t) k /\
                     blk_srv_init_szx maxszx (rq_arr r) = u) l ->
   forall t, 0 < len (bodies t) -> sizes t = None \/ sizes t = Some (len (bodies t)) ->
-  let outs := map snd (filter (fun p => blk_rtag_match (Some t) (fst p))
+  let outs := map snd (filter (fun p => blk_key_match (res, Some t) (fst p))
                          (blk_srv_recv_run junk maxszx [] l)) in
   Forall (fun o => match o with BoDeliver d => d = bodies t | BoReject => False | _ => True end) outs /\
   forall j, 0 <= j < blk_nblocks (bodies t) u ->
     blk_count_deliveries outs <=
-    blk_count_cover u j (map rq_arr (filter (fun r => blk_rtag_match (Some t) (rq_rtag r)) l)).
+    blk_count_cover u j (map rq_arr (filter (fun r => blk_key_match (res, Some t) (rq_key r)) l)).
 Proof.
-  intros Hu Hl t Ht Hsz outs. unfold outs. rewrite (blk_srv_recv_projection junk maxszx l [] (Some t) I).
+  intros Hu Hl t Ht Hsz outs. unfold outs. rewrite (blk_srv_recv_projection junk maxszx l [] (res, Some t) I).
   cbn [blk_tab_find].
   apply (blk_srv_reassembly (bodies t) u junk maxszx Hu Ht (sizes t)); [exact Hsz|].
   unfold rs_srv_arrivals. rewrite Forall_forall in *. intros a Ha.
   apply in_map_iff in Ha. destruct Ha as (r & <- & Hr). apply filter_In in Hr. destruct Hr as (Hr & M).
-  destruct (Hl r Hr) as (t' & s & k & E1 & E2 & E3 & E4 & E5).
-  rewrite E1 in M. cbn in M. assert (t' = t) by lia. subst t'.
+  destruct (Hl r Hr) as (t' & s & k & E1 & Er & E2 & E3 & E4 & E5).
+  unfold blk_key_match, rq_key in M. cbn [fst snd] in M. rewrite E1 in M. cbn [blk_rtag_match] in M.
+  assert (t' = t) by lia. subst t'.
   exists s, k. split; [exact E2|]. split; [exact E3|]. split; [exact E4|exact E5].
 Qed.
 
@@ -193,8 +206,8 @@ Qed.
 Example blk_srv_mix_without_rtag :
   let b1 := map (fun i => Z.of_nat i) (seq 0 40) in
   let b2 := map (fun i => 100 + Z.of_nat i) (seq 0 40) in
-  let rq b k := {| rq_rtag := None; rq_arr := blk_arr_of b 0 (Some 40) k |} in
-  exists d, In (None, BoDeliver d)
+  let rq b k := {| rq_res := 1; rq_rtag := None; rq_arr := blk_arr_of b 0 (Some 40) k |} in
+  exists d, In ((1, None), BoDeliver d)
               (blk_srv_recv_run (fun _ => 0) 0 [] [rq b1 0; rq b2 1; rq b1 2]) /\
             d <> b1 /\ d <> b2.
 Proof.
@@ -505,3 +518,33 @@ Section Lossless.
     exact (F Hrest).
   Qed.
 End Lossless.
+
+(* ------------------------------------------------------------------ (E) expiry timers *)
+(* events in time order, every event less than [wait] after the previous progress *)
+Fixpoint blk_tev_paced (wait last : Z) (l : list blk_tev) : Prop :=
+  match l with
+  | [] => True
+  | TvProgress t :: l' => last <= t < last + wait /\ blk_tev_paced wait t l'
+  | TvCheck t :: l' => last <= t < last + wait /\ blk_tev_paced wait last l'
+  end.
+
+(* state is kept while the transfer makes progress: if every block follows the previous one
+   within MAX_TRANSMIT_WAIT (which the message layer guarantees for an exchange that is not
+   abandoned), no run of the timeout function deletes the state, however long the whole
+   transfer takes *)
+Theorem blk_timed_kept wait : forall l last, blk_tev_paced wait last l ->
+  fst (blk_timed_run wait true last l) = true.
+Proof.
+  induction l as [|[t|t] l IH]; intros last Hp; cbn [blk_timed_run blk_tev_paced] in *.
+  - reflexivity.
+  - destruct Hp as (H1 & H2). apply IH, H2.
+  - destruct Hp as (H1 & H2). destruct (last + wait <=? t) eqn:E; [lia|]. cbn [andb negb]. apply IH, H2.
+Qed.
+
+(* without the refresh the same paced transfer is cut off once it lasts longer than [wait] *)
+Theorem blk_timed_norefresh_refuted :
+  exists l, blk_tev_paced 93 0 l /\ fst (blk_timed_run_norefresh 93 true 0 l) = false.
+Proof.
+  exists [TvProgress 40; TvCheck 41; TvProgress 80; TvCheck 81; TvProgress 120; TvCheck 121].
+  split; [cbn; lia|vm_compute; reflexivity].
+Qed.
